@@ -420,7 +420,14 @@ def f(cfg):
 
 def _step_key_sites(fn: ast.AST, families: set) -> List[Tuple[ast.AST, str]]:
     out = []
+    params = [a.arg for a in getattr(getattr(fn, "args", None), "args", [])]
+    # a step callback receives (pipeline section, name of the step as written): cfg[input_step] is the step
+    section = params[1] if len(params) >= 3 and params[0] == "self" and params[2] == "input_step" else None
     for n in ast.walk(fn):
+        if section and isinstance(n, ast.Subscript) and isinstance(n.value, ast.Name) and n.value.id == section and isinstance(n.slice, ast.Constant) and n.slice.value in families:
+            out.append((n, n.slice.value))
+        if section and isinstance(n, ast.Compare) and len(n.ops) == 1 and isinstance(n.ops[0], (ast.In, ast.NotIn)) and isinstance(n.left, ast.Constant) and n.left.value in families and isinstance(n.comparators[0], ast.Name) and n.comparators[0].id == section:
+            out.append((n, n.left.value))
         if isinstance(n, ast.Compare) and len(n.ops) == 1 and isinstance(n.ops[0], (ast.In, ast.NotIn)) and isinstance(n.left, ast.Constant) and n.left.value in families:
             c = n.comparators[0]
             if isinstance(c, ast.Subscript) and isinstance(c.slice, ast.Constant) and c.slice.value == "pipeline":
@@ -442,6 +449,9 @@ def rule_step_key(ctx: Ctx, rid: str) -> int:
     pos = ast.parse(_STEP_KEY_POSITIVE).body[0]
     if len(_step_key_sites(pos, families)) != 2:
         raise AnalysisError(f"{rid}: the positive example is no longer recognised")
+    pos2 = ast.parse("def cb(self, cfg, input_step):\n    return cfg['matching_cost']['matching_cost_method']\n").body[0]
+    if len(_step_key_sites(pos2, families)) != 1:
+        raise AnalysisError(f"{rid}: the positive example (callback reading cfg['matching_cost']) is no longer recognised")
     n = 0
     for rel in (SM, "pandora/check_configuration.py", "pandora/__init__.py", "pandora/Pandora.py"):
         if rel not in tree.py_files("pandora"):
